@@ -113,6 +113,16 @@ def gen(chk, tier):
                                  path="asm"))
             cmds.append(dict(sc=k, op="gcm.seal", h="%s%d" % (hname, nl), nonce=rb(rng, nl), aad=rb(rng, al), pt=rb(rng, pl),
                              prefix=[], spare=-1, alias="none", repeat=False, j="v%d" % ci))
+    # (6c) additional data of 2^29 bytes and more: its BIT length no longer fits 32 bits.  The string is all zero and is
+    # never materialised on the specification side (GCMG!SealZeroAad, lemma checked in MC_GcmToy); the real code
+    # hashes the real 512 MiB
+    for nz in ([(1 << 29) + 5] if q else [(1 << 29) - 1, 1 << 29, (1 << 29) + 5, (1 << 30) + 3]):
+        sc[0] += 1
+        k = sc[0]
+        cmds.append(dict(sc=k, op="scenario", cls="aad_len_32bit"))
+        cmds.append(dict(sc=k, op="gcm.aead", h="a", key=key, noncesize=12, tagsize=16, path="asm"))
+        cmds.append(dict(sc=k, op="gcm.seal", h="a", nonce=rb(rng, 12), aad=[], aad_zeros=nz, pt=rb(rng, 7), prefix=[], spare=-1,
+                         alias="none", repeat=False, j="v"))
     # (7) seeded random, several keys
     for _ in range(20 if q else 6000):
         k2 = rb(rng, 16)
